@@ -40,6 +40,10 @@ class Boom(Exception):
     pass
 
 
+class NotTerminating(BaseException):
+    """a call of the history does not come to an end (reported as a violation, never as a hanging check)"""
+
+
 def gen(rng):
     t0, tf = rng.choice([(0.0, 2.0), (1.0, 3.5), (-1.0, 1.0), (2.0, 0.0), (0.5, -1.5)])
     dt = abs(tf - t0) / rng.choice([8, 13, 20]) * rng.choice([1, -1])
@@ -81,10 +85,17 @@ def fresh(sc, y0, consts):
 def apply_ops(o, sc, counter):
     """returns the settings in force at the end (for the fresh comparison system)"""
     settings = dict(method=sc["method"], rtol=1e-6, atol=1e-8, tf=sc["tf"], kick=None)
+    nsteps = [0]
+
+    def budget(o_):
+        # a history of a few calls over spans of a few units that records more than 200 000 steps is not terminating
+        nsteps[0] += 1
+        if nsteps[0] > 200000:
+            raise NotTerminating()
     for op in sc["ops"]:
         try:
             if op[0] == "integrate":
-                o.integrate() if op[1] is None else o.integrate(op[1])
+                o.integrate(callback=budget) if op[1] is None else o.integrate(op[1], callback=budget)
             elif op[0] == "dt":
                 o.dt = op[1]
             elif op[0] == "rtol":
@@ -140,6 +151,10 @@ def run(ctx):
             o.set_method(getattr(I, sc["method"]))
             settings = apply_ops(o, sc, counter)
         except loopsim.BudgetExceeded:
+            continue
+        except NotTerminating:
+            ctx.oracle("history-terminates", False, dict(inp, steps=len(o.t), t=float(o.t[-1]), dt=float(o.dt)),
+                       what="a call of the history recorded more than 200000 steps (now at t=%r with dt=%r)" % (float(o.t[-1]), float(o.dt)))
             continue
         except Exception as e:
             ctx.oracle("ops-run", False, inp, what="operation sequence raised %r" % (e,))
@@ -263,8 +278,11 @@ def run(ctx):
                    inp, what="split run ends at %r %r, single run at %r %r" % (b.t[-1], b.y[-1], a.t[-1], a.y[-1]))
         n_before = len(b.t)
         st_before = b.integration_status
+        dt_before = float(b.dt)
         b.integrate()
-        ctx.oracle("at-target-noop", len(b.t) == n_before and b.integration_status == st_before, inp, what="integrate() at the target changed the system")
+        ctx.oracle("at-target-noop", len(b.t) == n_before and b.integration_status == st_before and float(b.dt) == dt_before,
+                   dict(inp, dt_before=dt_before, dt_after=float(b.dt), end=float(b.t[-1]), target=tf),
+                   what="integrate() at the target changed the system (samples %d -> %d, dt %r -> %r)" % (n_before, len(b.t), dt_before, float(b.dt)))
         ctx.count("split:" + name)
     # the time-grid part through the Lean model
     scs, lines = [], []
